@@ -191,11 +191,11 @@ def run(ctx):
     fb, fpaths = g.ok_paths(B + "::from_fen")
     for p in fpaths:
         if p.end == "return" and p.ret[0] == "agg" and p.ret[2] == "Ok":
+            # what is filled in, in order: stage calls and the constructor's own assignments of the clocks
             order = []
-            for e in p.events:
-                if e.kind == "call" and e.depth == 0 and g.is_stage(e.name):
-                    r = g.stage_roles(e.name)
-                    order.append("board" if "board" in r else sorted(r)[0])
+            for i_, k_, rs_, lab_ in g.timeline(p, depth_summary=False):
+                if k_ == "W" and rs_ - {"derived"}:
+                    order.append("board" if "board" in rs_ else sorted(rs_ - {"derived"})[0])
             ctx.check(order == ["board", "board", "castling", "ep", "half", "full"], "reader:field-order",
                       "from_fen does not consume placement, side, castling, en-passant, half-move, full-move in this order: %s" % order, loc(fb), sample={"reader": order})
     # ------------------------------------------------------------------ placement writer
@@ -222,10 +222,21 @@ def run(ctx):
                 okpiece = sq is not None and sq[0] == "sq"
                 # white <=> uppercase
                 white = None
-                for c in p.conds:
-                    ce = L.lift(c[0])
-                    if ce[0] == "bin" and ce[1] == "Eq" and sym.contains(ce, lambda y: y[0] == "color_on") and ("enum", COLOR, "White") in (ce[2], ce[3]):
-                        white = bool(c[1])
+                from .common import enum_values, in_set3
+                lconds = [(L.lift(c[0]), c[1]) for c in p.conds]
+                colour_x = []
+                for ce, cv_ in lconds:
+                    if ce[0] == "discr" and sym.contains(ce[1], lambda y: y[0] == "color_on") and not (ce[1][0] == "color_on"):
+                        colour_x.append(ce[1])
+                    elif ce[0] == "bin" and ce[1] in ("Eq", "Ne"):
+                        for a_ in (ce[2], ce[3]):
+                            if sym.contains(a_, lambda y: y[0] == "color_on") and a_[0] != "discr":
+                                colour_x.append(a_)
+                wi = [v_["name"] for v_ in f.adts[COLOR]["variants"]].index("White")
+                for x_ in colour_x:
+                    w3 = in_set3(enum_values(f, lconds, x_, COLOR), {wi})
+                    if w3 is not None:
+                        white = w3
                 ctx.check(okpiece and white is not None and white == upper, "writer:piece-letter",
                           "a piece is not written as the table char of piece_on(square), upper-cased exactly when color_on(square) is White", where,
                           sample={"writer": "char(piece_on(sq)) upper iff White"} if piece_writes == 1 else None)
